@@ -170,6 +170,11 @@ def clause_e(repo, chk, res):
                 if not ok:
                     chk.violation("E-guard", key, "unguarded:%s.%s" % (recv, attr), "`%s.%s` is read on a path where hasattr(%s, %r) has not been established although the same function tests it elsewhere: for minimisers whose result has no %s (scipy CG, Nelder-Mead) the fit ends in AttributeError" % (recv, attr, recv, attr, attr), file=FIT, line=reads[0].lineno)
     chk.require_count("E-guard", 2)
+    clause_std(repo, chk)
+
+
+def clause_std(repo, chk):
+    """post-fit standardisation of polar variables leaves every tied / bounded variable alone (shared with C16)"""
     # post-fit standardisation skips every member of a tie group (not only the non-head members)
     chk.rule("E-std", "VarsManager.standard_complex (run by fit_scipy after min_nll is taken) skips a complex variable whose r or phase component occurs anywhere in a tie group: membership is tested against the whole group, not a slice of it")
     sc = repo.fn("tf_pwa/variable.py::VarsManager.standard_complex")
@@ -237,10 +242,86 @@ def clause_scale(repo, chk):
         chk.violation("E-scale", cls.methods["fun"].key, "fun", "Cached_FG.fun returns %s instead of the unscaled objective F" % fval, file=FI, line=cls.methods["fun"].lineno)
     # fit_scipy undoes the factor once
     fs = repo.fn("tf_pwa/fit.py::fit_scipy")
-    undo = [n for n in walk_local(fs.node) if isinstance(n, ast.BinOp) and isinstance(n.op, ast.Div) and norm_text(n.right) == "grad_scale" and norm_text(n.left).endswith(".fun")]
+    # <result>.fun / grad_scale, possibly through a temporary (scaled = s.fun; min_nll = scaled / grad_scale)
+    fun_locals = {n.targets[0].id for n in walk_local(fs.node) if isinstance(n, ast.Assign) and len(n.targets) == 1 and isinstance(n.targets[0], ast.Name) and norm_text(n.value).endswith(".fun")}
+    undo = [n for n in walk_local(fs.node) if isinstance(n, ast.BinOp) and isinstance(n.op, ast.Div) and norm_text(n.right) == "grad_scale" and (norm_text(n.left).endswith(".fun") or (isinstance(n.left, ast.Name) and n.left.id in fun_locals))]
     chk.oblige("E-scale", "fit_scipy reports <result>.fun / grad_scale (%d site)" % len(undo), len(undo) >= 1)
     if not undo:
         chk.violation("E-scale", fs.key, "undo", "fit_scipy no longer divides the minimiser's objective value by grad_scale: min_nll is grad_scale times the NLL", file="tf_pwa/fit.py", line=fs.lineno)
+
+
+def clause_coord(repo, chk):
+    """the point a minimiser returns is written back in the coordinate of the objective it minimised"""
+    FITF = "tf_pwa/fit.py"
+    chk.rule("C-coord", "in every minimiser branch of fit_scipy (and in fit_newton_cg) the objective handed to the minimiser and the write-back of its result use the same coordinate: an objective wrapped by vm.trans_fcn_grad / trans_grad_hessp / trans_f_grad_hess works in the fit coordinate and is written back with set_trans_var(x) / set_all(x, True); the raw fcn.nll_grad (bounds handed to scipy) works in the model coordinate and is written back with set_all(x) - never the other way round, whatever ranges an earlier fit left registered")
+    WRAP = ("trans_fcn_grad", "trans_grad_hessp", "trans_f_grad_hess")
+    MINI = ("minimize", "my_minimize")
+    n_br = 0
+
+    def analyse(label, stmts, fkey, line):
+        nonlocal n_br
+        nodes = [x for st in stmts for x in ast.walk(st)]
+        defs = {}
+        for x in nodes:
+            if isinstance(x, ast.Assign) and len(x.targets) == 1 and isinstance(x.targets[0], ast.Name):
+                defs.setdefault(x.targets[0].id, []).append(x.value)
+            if isinstance(x, ast.FunctionDef):
+                defs.setdefault(x.name, []).append(x)
+
+        def coord(e, depth=0):
+            t = norm_text(e) if not isinstance(e, ast.FunctionDef) else " ".join(norm_text(b) for b in e.body)
+            if any("." + w + "(" in t for w in WRAP):
+                return "fit"
+            if depth < 4:
+                for nm in {y.id for y in ast.walk(e) if isinstance(y, ast.Name)}:
+                    for rhs in defs.get(nm, []):
+                        if rhs is not e and coord(rhs, depth + 1) == "fit":
+                            return "fit"
+            return "raw"
+
+        objectives = []
+        for x in nodes:
+            if isinstance(x, ast.Call) and (norm_text(x.func).split(".")[-1] in MINI) and (x.args or any(k.arg == "fun" for k in x.keywords)):
+                obj = x.args[0] if x.args else next(k.value for k in x.keywords if k.arg == "fun")
+                objectives.append((coord(obj), x))
+        if not objectives:
+            return
+        writes = []
+        for x in nodes:
+            if isinstance(x, ast.Call) and isinstance(x.func, ast.Attribute) and x.func.attr in ("set_trans_var", "set_all") and x.args:
+                if x.func.attr == "set_trans_var":
+                    c = "fit"
+                else:
+                    flag = x.args[1] if len(x.args) > 1 else next((k.value for k in x.keywords if k.arg == "val_in_fit"), None)
+                    c = "fit" if (flag is not None and const_value(flag) is True) else "raw"
+                writes.append((c, x))
+        n_br += 1
+        # an ad-hoc lambda objective (the derivative-free variant `lambda x: float(fcn(x))`) is reported, not judged
+        lam = [o for o in objectives if isinstance(o[1].args[0] if o[1].args else None, ast.Lambda)]
+        for c, x in lam:
+            chk.info("C-coord: %s: lambda objective `%s` (line %d) classified %s - not judged" % (label, norm_text(x.args[0])[:40], x.lineno, c))
+        objectives = [o for o in objectives if o not in lam] or objectives
+        kinds = {c for c, _ in objectives}
+        ok = len(kinds) == 1 and all(c in kinds for c, _ in writes)
+        chk.instance("C-coord", "%s: objective in the %s coordinate (%d minimiser calls), %d write-backs in %s" % (label, "/".join(sorted(kinds)), len(objectives), len(writes), "/".join(sorted({c for c, _ in writes})) or "-"), nontrivial=True)
+        if len(kinds) == 1:
+            want = next(iter(kinds))
+            for c, x in writes:
+                if c != want:
+                    chk.violation("C-coord", fkey, "write-back:%s" % label, "%s: the minimiser works on %s but its result is written back with `%s`, which takes a point in the %s coordinate: whenever a range is registered for a free parameter (left behind by an earlier Newton-CG / trust-* fit or an aborted BFGS fit) the stored value is the transform of the returned one, so the model no longer sits at the point whose NLL is reported" % (label, "the raw model coordinate (fcn.nll_grad with scipy bounds)" if want == "raw" else "the bound-transformed fit coordinate", norm_text(x)[:50], "fit" if c == "fit" else "model"), file=FITF, line=x.lineno)
+
+    fs = repo.fn(FITF + "::fit_scipy")
+    chain = [st for st in fs.node.body if isinstance(st, ast.If) and "method" in norm_text(st.test)]
+    for top in chain:
+        cur = top
+        while isinstance(cur, ast.If):
+            analyse("fit_scipy[%s]" % norm_text(cur.test)[:40], cur.body, fs.key, cur.lineno)
+            cur = cur.orelse[0] if len(cur.orelse) == 1 and isinstance(cur.orelse[0], ast.If) else None
+    fn2 = repo.fn_opt(FITF + "::fit_newton_cg") if hasattr(repo, "fn_opt") else None
+    if fn2 is not None:
+        analyse("fit_newton_cg", fn2.node.body, fn2.key, fn2.lineno)
+    if n_br < 2:
+        raise AnalysisError("C-coord: only %d minimiser branches recognised in tf_pwa/fit.py" % n_br)
 
 
 def clause_dic(repo, chk):
@@ -278,6 +359,7 @@ def clause_dic(repo, chk):
 def run(repo, chk, tier):
     clause_scale(repo, chk)
     clause_dic(repo, chk)
+    clause_coord(repo, chk)
     res = Resolver(repo)
     eff = Effects(repo, res)
     clause_a(repo, chk, res)
